@@ -1,4 +1,4 @@
-package mocrelay
+package sqlite
 
 // Harness primitives. The symbolic engine (symgo) intercepts every vp*
 // function by name; the bodies below are the NATIVE semantics used when a
